@@ -42,3 +42,27 @@ pub fn z(x: i128) -> String {
         format!("{}%Z", x)
     }
 }
+
+/// serde_json value -> Gallina `json` term
+pub fn json(v: &serde_json::Value) -> String {
+    use serde_json::Value::*;
+    match v {
+        Null => "JNull".into(),
+        Bool(x) => format!("(JBool {})", b(*x)),
+        Number(n) => {
+            if let Some(i) = n.as_i64() {
+                format!("(JInt {})", z(i as i128))
+            } else if let Some(u) = n.as_u64() {
+                format!("(JInt {})", z(u as i128))
+            } else {
+                format!("(JFrac {})", s(&n.to_string()))
+            }
+        }
+        String(x) => format!("(JStr {})", s(x)),
+        Array(a) => format!("(JArr {})", list(a, |x| json(x))),
+        Object(m) => {
+            let items: Vec<std::string::String> = m.iter().map(|(k, v)| format!("({}, {})", s(k), json(v))).collect();
+            format!("(JObj [{}])", items.join("; "))
+        }
+    }
+}
